@@ -1,5 +1,6 @@
 import Driver.Codec
 import Driver.Affine
+import Driver.PathOps
 open PicoSVG Drv
 
 def handleF64 (fields : List String) : Option String :=
@@ -12,7 +13,7 @@ def handleF64 (fields : List String) : Option String :=
   | ["f64.round", h, n] => n.toInt?.map (fun k => fHex (F64.pyRound (ofHex h) k))
   | _ => none
 
-def handlers : List (List String → Option String) := [handleF64, handleAffine]
+def handlers : List (List String → Option String) := [handleF64, handleAffine, handlePath]
 
 def handle (fields : List String) : String :=
   match handlers.findSome? (fun h => h fields) with
